@@ -27,6 +27,11 @@ CHECK = {
         "udp": {"pkg": "server", "run": "TestVerifC10UDP", "harness": _SRV_H,
                 "rewrite": _SRV_RW, "gomaxprocs": 2,
                 "budget_s": {"quick": 60, "thorough": 300}},
+        # shared upstream lookups: the C11 lookup exploration (leader / followers on the real groupLookup path, shared and
+        # lookup-owned requests) is judged here for "each reply carries that query's ID and question" (key lookup/wrong_reply)
+        "sharedlookup": {"pkg": "middleware/resolver", "run": "TestVerifC11Lookup",
+                         "harness": {"middleware/resolver": ["zz_verif_c11lk_*_test.go"]}, "gomaxprocs": 2,
+                         "budget_s": {"quick": 40, "thorough": 420}},
         # the stream staging buffer at every boundary: pipelined replies arrive whole, one per query, in order
         "stream": {"pkg": "server", "run": "TestVerifC10Stream",
                    "harness": {"server": ["zz_verif_cstream_test.go"]},
